@@ -50,8 +50,8 @@ FocusOK(a, x) ==
             /\ (Has(x, "lo") => x.lo = 0 /\ x.hi = 1) /\ (Has(x, "how") => x.how = "pop")
             /\ (a = "TLReconstruct" => x.unify) /\ (a = "TreeClone" => x.t = 5 /\ x.nsarg = 0)
       [] Focus = "D" ->
-            /\ a \in {"DSRead", "DSReadBlocks", "DSAddList", "DSNewList", "DSAttach", "DSDetach", "DSUnify", "CMMigrate", "CMClone", "TLAppend", "TLMigrate"}
-            /\ (Has(x, "m") => x.m = 2) /\ (Has(x, "l") => x.l = 1) /\ (Has(x, "t") => x.t = 5)
+            /\ a \in {"DSRead", "DSReadBlocks", "DSAddList", "DSNewList", "DSAttach", "DSDetach", "DSUnify", "CMMigrate", "CMClone", "CMGetTaxon", "TLAppend", "TLMigrate"}
+            /\ (Has(x, "m") => x.m = 2) /\ (Has(x, "l") => x.l = 1) /\ (Has(x, "t") => x.t = (IF a = "CMGetTaxon" THEN 2 ELSE 5))
             /\ (Has(x, "strat") => x.strat = "migrate") /\ (Has(x, "nsarg") => x.nsarg \in {0, 1}) /\ (Has(x, "n") => x.n \in {1, 3})
             /\ (a \in {"TLMigrate", "CMMigrate"} => x.unify)
             /\ (Has(x, "src") => x.src.rows # <<>>)
@@ -118,6 +118,9 @@ TAAdd(a, t) == G("arr") /\ Act("TAAdd", [a |-> a, t |-> t])
 TARead(a, srcs) == G("arr") /\ Act("TARead", [a |-> a, srcs |-> srcs])
 CMNewSeq(m, t) == G("mat") /\ Act("CMNewSeq", [m |-> m, t |-> t])
 CMSetItem(m, t) == G("mat") /\ Act("CMSetItem", [m |-> m, t |-> t])
+CMGetTaxon(m, t) == G("mat") /\ Act("CMGetTaxon", [m |-> m, t |-> t])
+CMGetLabel(m, lab) == G("mat") /\ Act("CMGetLabel", [m |-> m, lab |-> lab])
+CMGetIndex(m, i) == G("mat") /\ Act("CMGetIndex", [m |-> m, i |-> i])
 CMMigrate(m, n, b) == G("mat") /\ Act("CMMigrate", [m |-> m, n |-> n, unify |-> b])
 CMReconstruct(m, b) == G("mat") /\ Act("CMReconstruct", [m |-> m, unify |-> b])
 CMUpdate(m) == G("mat") /\ Act("CMUpdate", [m |-> m])
@@ -158,6 +161,9 @@ Next == \/ \E l \in LS2, t \in FreeT, s \in Strats : TLAppend(l, t, s)
         \/ \E a \in AS, srcs \in W(TreeSrcs, {<<<<"Z", "AB">>>>}) : TARead(a, srcs)
         \/ \E m \in MS, t \in RowX : CMNewSeq(m, t)
         \/ \E m \in MS, t \in RowX : CMSetItem(m, t)
+        \/ \E m \in MS, t \in RowX : CMGetTaxon(m, t)
+        \/ \E m \in MS, lab \in W({"c", "B", "q1"}, {"c"}) : CMGetLabel(m, lab)
+        \/ \E m \in MS, i \in W({0, 2, 5}, {2}) : CMGetIndex(m, i)
         \/ \E m \in MS, n \in NsT, b \in BOOLEAN : CMMigrate(m, n, b)
         \/ \E m \in MS, b \in Uni : CMReconstruct(m, b)
         \/ \E m \in MS : CMUpdate(m)
